@@ -23,6 +23,7 @@ type Script struct {
 	Tr      string   `json:"tr"`    // inproc | httpmem | http | ref
 	Mode    string   `json:"mode"`  // sched | free
 	CS      []Op     `json:"cs"`    // Send, CloseSend
+	CS2     []Op     `json:"cs2"`   // CloseSend (a second sender-side goroutine)
 	CR      []Op     `json:"cr"`    // Invoke | Recv, RecvAll, Header, Trailer
 	H       []Op     `json:"h"`     // Recv, RecvAll, Send, SetHeader, SendHeader, SetTrailer, WaitCtx, Return
 	Sched   []string `json:"sched"` // cs | cr | h | cancel | deadline
